@@ -10,8 +10,9 @@ C10 — the metadata decoders of libsquashfs as programs over metadata readers (
 
 Only what the functions *compute from the reader's answers* is modelled: the order and arguments of the
 `seek/read/get_position` calls, every check that can make them return early, and the returned value.
-Memory allocation is assumed to succeed (`SQFS_ERROR_ALLOC` is not modelled; the `size_t` overflow checks in
-front of the allocations are).  All multi-byte fields are little endian (`le*toh`).
+Memory: an allocation of more than `allocLimit` bytes fails (`SQFS_ERROR_ALLOC`; the harness runs the real code
+with exactly this limit, ASan's `max_allocation_size_mb`), smaller ones are assumed to succeed; the `size_t`
+overflow checks in front of the allocations are modelled.  All multi-byte fields are little endian (`le*toh`).
 
 Reader numbers: a dir reader owns `meta_inode` (0) and `meta_dir` (1); an xattr reader owns `idrd` (0) and
 `kvrd` (1).
@@ -19,6 +20,10 @@ Reader numbers: a dir reader owns `meta_inode` (0) and `meta_dir` (1); an xattr 
 import Sqfs.Model.C10Prog
 namespace Sqfs.C10P
 open Sqfs.MetaReader Sqfs.Consts
+
+/-- the largest allocation the environment grants (`max_allocation_size_mb=128` of the harness); only sizes taken
+from the image (block counts, link targets, directory index names, xattr values) can exceed it -/
+def allocLimit : Nat := 134217728
 
 /-! ### inodes (`read_inode.c`) -/
 
@@ -55,14 +60,23 @@ def fieldsOf : List Nat → Bytes → Nat → List Nat
   | [], _, _ => []
   | w :: ws, bs, off => leAt bs off w :: fieldsOf ws bs (off + w)
 
+/-- `new_sz = index_max; while (sizeof(ent) + ent.size + 1 > new_sz - index_used) new_sz *= 2;` -/
+def growIndex (need used : Nat) : Nat → Nat → Nat
+  | 0, sz => sz
+  | fuel + 1, sz => if need > sz - used then growIndex need used fuel (sz * 2) else sz
+
 /-- the index loop of `read_inode_dir_ext`: `count` times a 12-byte `sqfs_dir_index_t` and `size + 1` name bytes,
-appended to the payload as they are -/
-def readIndexP (k : Nat) : Nat → Bytes → (Bytes → Prog α) → Prog α
-  | 0, acc, cont => cont acc
-  | n + 1, acc, cont =>
+appended to the payload as they are (`acc`, `index_used = |acc|`); the payload buffer (`index_max` bytes) is
+doubled by `realloc` until the record fits -/
+def readIndexP (k : Nat) : Nat → Nat → Bytes → (Bytes → Prog α) → Prog α
+  | 0, _, acc, cont => cont acc
+  | n + 1, indexMax, acc, cont =>
     .read k sizeofDirIndex fun ent =>
-    .read k (leAt ent 8 4 + 1) fun name =>
-    readIndexP k n (acc ++ ent ++ name) cont
+    let newSz := growIndex (sizeofDirIndex + leAt ent 8 4 + 1) acc.length 64 indexMax
+    if newSz > indexMax ∧ sizeofInodeGeneric + newSz > allocLimit then .fail errAlloc     -- realloc
+    else
+      .read k (leAt ent 8 4 + 1) fun name =>
+      readIndexP k n (if newSz > indexMax then newSz else indexMax) (acc ++ ent ++ name) cont
 
 /-- `sqfs_meta_reader_read_inode(ir = rd[k], super, block_start, offset, &result)`; of `super` only
 `inode_table_start` and `block_size` are used -/
@@ -80,25 +94,30 @@ def readInodeP (k tblStart blockSize b o : Nat) : Prog InodeR :=
       .read k sizeofInodeFile fun d =>
       let fl := fieldsOf [4, 4, 4, 4] d 0                       -- blocks_start, fragment_index, fragment_offset, file_size
       let count := blockCount (leAt d 12 4) blockSize (leAt d 4 4) (leAt d 8 4)
-      .read k (count * 4) fun ex => .ret (mk fl ex)
+      if sizeofInodeGeneric + count * 4 > allocLimit then .fail errAlloc               -- alloc_flex
+      else .read k (count * 4) fun ex => .ret (mk fl ex)
     else if typ = inodeSlink then
       .read k sizeofInodeSlink fun d =>                          -- nlink, target_size
-      .read k (leAt d 4 4) fun tgt => .ret (mk (fieldsOf [4, 4] d 0) tgt)
+      if sizeofInodeGeneric + leAt d 4 4 + 1 > allocLimit then .fail errAlloc           -- calloc
+      else .read k (leAt d 4 4) fun tgt => .ret (mk (fieldsOf [4, 4] d 0) tgt)
     else if typ = inodeExtFile then
       .read k sizeofInodeFileExt fun d =>
       let fl := fieldsOf [8, 8, 8, 4, 4, 4, 4] d 0              -- blocks_start, file_size, sparse, nlink, fragment_idx, fragment_offset, xattr_idx
       let count := blockCount (leAt d 8 8) blockSize (leAt d 28 4) (leAt d 32 4)
       if count * 4 + sizeofInodeGeneric ≥ U64 then .fail errOverflow     -- alloc_flex: EOVERFLOW
+      else if sizeofInodeGeneric + count * 4 > allocLimit then .fail errAlloc
       else .read k (count * 4) fun ex => .ret (mk fl ex)
     else if typ = inodeExtSlink then
       .read k sizeofInodeSlink fun d =>
-      .read k (leAt d 4 4) fun tgt =>
-      .read k 4 fun x => .ret (mk (fieldsOf [4, 4] d 0 ++ [leAt x 0 4]) tgt)
+      if sizeofInodeGeneric + leAt d 4 4 + 1 > allocLimit then .fail errAlloc
+      else
+        .read k (leAt d 4 4) fun tgt =>
+        .read k 4 fun x => .ret (mk (fieldsOf [4, 4] d 0 ++ [leAt x 0 4]) tgt)
     else if typ = inodeExtDir then
       .read k sizeofInodeDirExt fun d =>
       let fl := fieldsOf [4, 4, 4, 4, 2, 2, 4] d 0              -- nlink, size, start_block, parent_inode, inodex_count, offset, xattr_idx
       if leAt d 4 4 = 0 then .ret (mk fl [])                    -- dir.size == 0: the index is not read
-      else readIndexP k (leAt d 16 2) [] fun ex => .ret (mk fl ex)
+      else readIndexP k (leAt d 16 2) 128 [] fun ex => .ret (mk fl ex)
     else if typ = inodeDir then
       .read k sizeofInodeDir fun d => .ret (mk (fieldsOf [4, 4, 2, 2, 4] d 0) [])   -- start_block, nlink, size, offset, parent_inode
     else if typ = inodeBdev ∨ typ = inodeCdev then
@@ -344,8 +363,9 @@ def XR.readKeyP (_x : XR) (cont : Nat × Nat × Bytes → Prog α) : Prog α :=
 
 /-- `read_value_hdr` + the value bytes + the seek back: common part of `sqfs_xattr_reader_read_value` and
 `sqfs_xattr_reader_read`.  For an out-of-line value: remember `get_position`, seek to the referenced value, read
-it, seek back. -/
-def XR.readValueP (x : XR) (keyType : Nat) (cont : Bytes → Prog α) : Prog α :=
+it, seek back.  `allocBase`: what the caller allocates besides the value bytes (`calloc`/`realloc` between the
+value header and the value). -/
+def XR.readValueP (x : XR) (allocBase keyType : Nat) (cont : Bytes → Prog α) : Prog α :=
   .read 1 sizeofXattrValue fun v =>
   if keyType / xattrFlagOol % 2 = 1 then
     .read 1 8 fun r =>
@@ -357,19 +377,25 @@ def XR.readValueP (x : XR) (keyType : Nat) (cont : Bytes → Prog α) : Prog α 
       .pos 1 fun p =>
       .seek 1 newStart newOff <|
       .read 1 sizeofXattrValue fun v2 =>
-      .read 1 (leAt v2 0 4) fun val =>
-      .seek 1 p.1 p.2 <| cont val
+      if allocBase + leAt v2 0 4 > allocLimit then .fail errAlloc
+      else
+        .read 1 (leAt v2 0 4) fun val =>
+        .seek 1 p.1 p.2 <| cont val
+  else if allocBase + leAt v 0 4 > allocLimit then .fail errAlloc
   else .read 1 (leAt v 0 4) fun val => cont val
 
 /-- `sqfs_xattr_reader_read_key` (continues at the cursor of `kvrd`) -/
 def XR.readKeyApiP (x : XR) : Prog (Nat × Nat × Bytes) := x.readKeyP fun r => .ret r
 /-- `sqfs_xattr_reader_read_value` (continues at the cursor of `kvrd`) -/
-def XR.readValueApiP (x : XR) (keyType : Nat) : Prog Bytes := x.readValueP keyType fun v => .ret v
+def XR.readValueApiP (x : XR) (keyType : Nat) : Prog Bytes :=
+  x.readValueP (sizeofXattrValue + 1) keyType fun v => .ret v
 
 /-- the loop of `sqfs_xattr_reader_read_all`: `count` times `sqfs_xattr_reader_read` -/
 def XR.readPairsP (x : XR) : Nat → List (Bytes × Bytes) → Prog (List (Bytes × Bytes))
   | 0, acc => .ret acc
-  | n + 1, acc => x.readKeyP fun k => x.readValueP k.1 fun v => XR.readPairsP x n (acc ++ [(k.2.2, v)])
+  | n + 1, acc =>
+    x.readKeyP fun k =>                                          -- total = sizeof(*kv) + plen + 1 + key.size, then + value.size + 1
+    x.readValueP (sizeofXattrT + k.2.2.length + 2) k.1 fun v => XR.readPairsP x n (acc ++ [(k.2.2, v)])
 
 /-- `sqfs_xattr_reader_read_all(xr, idx, &list)` -/
 def XR.readAllP (x : XR) (idx : Nat) : Prog (List (Bytes × Bytes)) :=
